@@ -37,7 +37,7 @@ import (
 
 // ------------------------------------------------------------------ parent (stream conc.race)
 
-var typeSets = []string{"shared", "recursive", "disjoint", "generated", "mixed", "failing", "mutual"}
+var typeSets = []string{"shared", "recursive", "disjoint", "generated", "mixed", "failing", "mutual", "flatten", "clash"}
 
 type raceImpl struct {
 	child      string
@@ -260,6 +260,7 @@ type target struct {
 	json  []byte        // input for JSONToProto
 	query url.Values    // input for QueryToProto
 	index map[string]int
+	clash bool // member of the schema-name collision family
 }
 
 type call struct {
@@ -273,6 +274,24 @@ func compiled(ms ...proto.Message) []*target {
 		m := m
 		out = append(out, &target{name: string(m.ProtoReflect().Descriptor().FullName()), desc: m.ProtoReflect().Descriptor(),
 			newFn: func() protoreflect.Message { return m.ProtoReflect().New() }})
+	}
+	return out
+}
+
+// graphTargets builds the graph into dynamicpb message types.
+func graphTargets(g Graph, prefix string) []*target {
+	descs, index, err := buildDescriptors(g, false)
+	if err != nil {
+		return nil
+	}
+	var out []*target
+	for i, d := range descs {
+		md, ok := d.(protoreflect.MessageDescriptor)
+		if !ok {
+			continue
+		}
+		out = append(out, &target{name: prefix + strconv.Itoa(i) + ":" + string(md.FullName()), desc: md,
+			newFn: func() protoreflect.Message { return dynamicpb.NewMessage(md) }, index: index})
 	}
 	return out
 }
@@ -324,6 +343,30 @@ func pickTargets(set string, rng *rand.Rand) []*target {
 		// *_UNSPECIFIED) that other, good, types share sub-schemas with: the roll-back of the failed
 		// build runs while other goroutines look the shared types up; plus good compiled-in types
 		return append(generated(rng, hasFailingWithSharing), shared[:3]...)
+	case "flatten":
+		// messages that flatten each other, rings of flattens, a flattened child shared by several
+		// parents: the JSON shape of each must not depend on which was used first on the shared codec
+		g := genFlattenGraph(rng)
+		ts := graphTargets(g, "f")
+		return append(ts, compiled(&schema_testpb.FlattenedMessage{})...)
+	case "clash":
+		// two descriptors with one schema name (Bar nested in Foo / top-level Foo_Bar) and further
+		// types that are used for the first time after the clash error
+		variant := []string{"m", "e"}[rng.IntN(2)]
+		descs, err := buildClash(variant)
+		if err != nil {
+			return nil
+		}
+		var out []*target
+		for i, md := range descs {
+			if md == nil {
+				continue
+			}
+			md := md
+			out = append(out, &target{name: "c" + strconv.Itoa(i) + ":" + string(md.FullName()), desc: md,
+				newFn: func() protoreflect.Message { return dynamicpb.NewMessage(md) }, clash: true})
+		}
+		return append(out, generated(rng, nil)...)
 	case "mutual":
 		// rings with back edges: self and mutual recursion, first use from every goroutine at once
 		return append(generated(rng, func(g Graph, style int) bool { return style == 1 && len(g) >= 3 }), recursive[:3]...)
@@ -481,6 +524,8 @@ func errClass(err error) string {
 		return "err:unlinked-ref"
 	case strings.Contains(s, "unsupported root schema type <nil>"):
 		return "err:nil-root"
+	case strings.Contains(s, "is used by both"):
+		return "err:name-clash"
 	}
 	return "err"
 }
@@ -701,6 +746,10 @@ func childMain(args []string) {
 				}
 				sig := "result-differs:" + map[byte]string{'e': "ProtoToJSON", 'd': "JSONToProto", 'q': "QueryToProto", 's': "Schema"}[c.kind]
 				switch {
+				case ts[c.t].clash && (got == "err:name-clash" || want == "err:name-clash"):
+					// the recorded finding: which of two descriptors with one schema name works on a
+					// shared codec depends on which was used first
+					sig = "cache-history:schema-name-clash"
 				case strings.Contains(got, "err:unlinked-ref") || strings.Contains(got, "err:nil-root") || (c.kind == 's' && strings.Contains(got, "!")):
 					sig = "unlinked-ref-observed"
 				case got == "panic":
